@@ -136,8 +136,10 @@ def agree(cx, got, v, path, node=None, tname=None):
         return agree_rec(cx, got, v, path, node)
     # an abstract cell (^Cell)
     if hasattr(v, '_hashes'):
-        cx.claim(f'{path}: the referenced cell', got is v or (hasattr(got, 'begin_parse') and hasattr(got, 'hash') and got.hash == v.hash)
-                 or (hasattr(got, 'ref_offset') and hasattr(got, 'to_cell') and w.eq_seq(w.seq_of(got.bits), w.seq_of(v.bits))))
+        same_content = hasattr(got, 'bits') and hasattr(got, 'refs') and w.And(
+            w.eq_seq(w.seq_of(got.bits), w.seq_of(v.bits)),
+            len(got.refs) - getattr(got, 'ref_offset', 0) == len(v.refs) and all(a is b for a, b in zip(got.refs[getattr(got, 'ref_offset', 0):], v.refs)))
+        cx.claim(f'{path}: the referenced cell', True if got is v else same_content)
         return
     cx.claim(f'{path}: unsupported value kind {type(v).__name__}', False)
 
